@@ -330,7 +330,8 @@ def _check(case, res, sb):
     res.nt(len(files) >= 2 and near)
     res.label('fmt:' + fmt, 'nfiles:%d' % len(files))
     # ---------------- writer session
-    s = harness.Sess(sandbox=sb, budget=60000, devices={'Z': sb.z, 'CAS1': spec},
+    s = harness.Sess(sandbox=sb, budget=60000, video='cga',
+                     devices={'Z': sb.z, 'CAS1': spec},
                      hide_protected=True)
     try:
         for f in files:
@@ -416,7 +417,8 @@ def _check(case, res, sb):
             f['ondisk'] = None
     # ---------------- reader session
     reads = case.get('reads') or [{'i': i} for i in range(len(files))]
-    s = harness.Sess(sandbox=sb, budget=60000, devices={'Z': sb.z, 'CAS1': spec},
+    s = harness.Sess(sandbox=sb, budget=60000, video='cga',
+                     devices={'Z': sb.z, 'CAS1': spec},
                      hide_protected=True)
     try:
         pos = 0
@@ -688,7 +690,7 @@ def strat_tape(fmt='cas', maxfiles=4, maxlen=MAXLEN):
     return st.randoms(use_true_random=False).map(lambda rng: rand_tape(rng, fmt, maxfiles, maxlen))
 
 
-RAND_COUNTS = {'cas': {'quick': 90, 'thorough': 6000}, 'wav': {'quick': 12, 'thorough': 150}}
+RAND_COUNTS = {'cas': {'quick': 90, 'thorough': 3000}, 'wav': {'quick': 12, 'thorough': 150}}
 
 
 def _gen_rand(fmt, maxfiles, maxlen):
